@@ -526,7 +526,7 @@ class StatesManager:
 
         xx = max(x, self._last_projected_index + 1)
 
-        while xx < self.max_frontier_indices:
+        while xx <= self.max_frontier_indices:
             if not is_outside(state_increment := project(xx)):
                 self._last_projected_index = xx
                 return state_increment, False
